@@ -7,7 +7,7 @@
    as the library builds them). *)
 From Coq Require Import List ZArith Bool.
 Import ListNotations.
-Require Import DV.Common.Base DV.Core.Diagram DV.Core.WF DV.Core.DiagramLemmas
+Require Import DV.Common.Base DV.Core.Diagram DV.Core.WF DV.Core.DiagramLemmas DV.Core.WFExt
   DV.Repr.Repr DV.Repr.ReprLemmas.
 Open Scope Z_scope.
 
@@ -38,6 +38,18 @@ Theorem deq_iff_same_fields : forall a b, deqb a b = true <->
   ddom a = ddom b /\ dcod a = dcod b /\ dboxes a = dboxes b /\ doffs a = doffs b.
 Proof. exact deqb_eq. Qed.
 Print Assumptions deq_iff_same_fields.
+
+(* ... and on well-typed values (every value the API returns, C01) that is equality of
+   the whole value: the layer view and the codomain are determined by domain, boxes
+   and offsets, so == is Leibniz equality of diagram values *)
+Theorem wf_diagram_determined_by_dom_boxes_offsets : forall a b, wf a -> wf b ->
+  ddom a = ddom b -> dboxes a = dboxes b -> doffs a = doffs b -> a = b.
+Proof. exact wf_determined_by_dom_boxes_offsets. Qed.
+Print Assumptions wf_diagram_determined_by_dom_boxes_offsets.
+
+Theorem deq_iff_identical_on_wf : forall a b, wf a -> wf b -> (deqb a b = true <-> a = b).
+Proof. exact deqb_leibniz_on_wf. Qed.
+Print Assumptions deq_iff_identical_on_wf.
 
 Theorem box_eq_iff_same_fields : forall a b, box_eqb a b = true <-> a = b.
 Proof. exact box_eqb_eq. Qed.
